@@ -515,6 +515,21 @@ func C20(c *core.Ctx) {
 					}
 				})
 				okLookup = walks && heldOI[f][pm[0]]["W:Engine.fibLock"]
+				// R20.13: and it is looked up on every call — every return of a handler
+				// lies behind the trie lookup of this call. A remembered answer of an
+				// earlier lookup (a last-hit cache) is right only until a handler is
+				// attached at a longer prefix below it, or detached.
+				stale := ""
+				core.Instrs(f, func(in ssa.Instruction) {
+					r, isR := in.(*ssa.Return)
+					if !isR || len(r.Results) != 1 || core.IsNilConst(core.Strip(r.Results[0])) || in.Block() == f.Recover {
+						return
+					}
+					if !core.Precedes(f, r, func(x ssa.Instruction) bool { return x == ssa.Instruction(pm[0]) }) {
+						stale = c.Pos(r)
+					}
+				})
+				c.Decide(stale == "", "R20.13", "handler-looked-up-on-every-call", p.Pos(f.Pos()), "every return of a handler lies behind PrefixMatch(name) of the same call", "onInterest can answer with a handler that was not looked up for this Interest (return at "+stale+" without the trie lookup): a remembered handler stays in use after another one was attached at a longer prefix below it — the Interest is not handed to the handler at the longest matching prefix")
 			}
 			var sends []ssa.Instruction
 			core.Instrs(f, func(in ssa.Instruction) {
